@@ -890,6 +890,11 @@ func (c *FnCtx) evCall(x *eCall, env *evalEnv) *Val {
 				if lv, ok := x.args[1].(*eIdent); ok {
 					for _, ins := range target.header.Instrs {
 						if phi, ok := ins.(*ssa.Phi); ok && phi.Comment == lv.name {
+							if c.headPhis != nil {
+								if r, ok := c.headPhis[phi]; ok && r != nil {
+									return r
+								}
+							}
 							if r, ok := c.regs[phi]; ok {
 								return r
 							}
